@@ -203,7 +203,7 @@ class AsyncTLSStreamTransport(AsyncStreamTransport):
     async def recv(self, bufsize: int) -> bytes:
         assert _ssl_module is not None, "stdlib ssl module not available"  # nosec assert_used
         try:
-            return await self._retry_ssl_method(self._ssl_object.read, bufsize)
+            return await self._retry_ssl_method(self._ssl_object.read, bufsize, wait_for_flush=False)
         except _ssl_module.SSLZeroReturnError:
             return b""
         except _ssl_module.SSLError as exc:
@@ -217,7 +217,7 @@ class AsyncTLSStreamTransport(AsyncStreamTransport):
         assert _ssl_module is not None, "stdlib ssl module not available"  # nosec assert_used
         nbytes = memoryview(buffer).nbytes or 1024
         try:
-            return await self._retry_ssl_method(self._ssl_object.read, nbytes, buffer)  # type: ignore[arg-type]
+            return await self._retry_ssl_method(self._ssl_object.read, nbytes, buffer, wait_for_flush=False)  # type: ignore[arg-type]
         except _ssl_module.SSLZeroReturnError:
             return 0
         except _ssl_module.SSLError as exc:
@@ -274,17 +274,20 @@ class AsyncTLSStreamTransport(AsyncStreamTransport):
         self,
         ssl_object_method: Callable[[*_T_PosArgs], _T_Return],
         *args: *_T_PosArgs,
+        wait_for_flush: bool = True,
     ) -> _T_Return:
         assert _ssl_module is not None, "stdlib ssl module not available"  # nosec assert_used
+        # NOTE: A read operation (wait_for_flush=False) never waits for the send lock. A writer can hold it as long as
+        #       the peer does not read, and the peer may be waiting for us to read first. The lock owner flushes
+        #       everything which has been added in the meantime before releasing it.
         while True:
             try:
                 result = ssl_object_method(*args)
             except _ssl_module.SSLWantReadError:
                 try:
                     # Flush any pending writes first
-                    async with self.__transport_send_lock:
-                        if self._write_bio.pending:
-                            await self._transport.send_all(self._write_bio.read())
+                    if self._write_bio.pending and (wait_for_flush or not self.__transport_send_lock.locked()):
+                        await self.__flush_write_bio()
 
                     async with self.__transport_recv_lock:
                         await self.__incoming_reader.readinto(self._read_bio)
@@ -293,19 +296,22 @@ class AsyncTLSStreamTransport(AsyncStreamTransport):
                     self._write_bio.write_eof()
                     raise
             except _ssl_module.SSLWantWriteError:
-                async with self.__transport_send_lock:
-                    await self._transport.send_all(self._write_bio.read())
+                await self.__flush_write_bio()
             except _ssl_module.SSLError:
                 self._read_bio.write_eof()
                 self._write_bio.write_eof()
                 raise
             else:
                 # Flush any pending writes first
-                async with self.__transport_send_lock:
-                    if self._write_bio.pending:
-                        await self._transport.send_all(self._write_bio.read())
+                if self._write_bio.pending and (wait_for_flush or not self.__transport_send_lock.locked()):
+                    await self.__flush_write_bio()
 
                 return result
+
+    async def __flush_write_bio(self) -> None:
+        async with self.__transport_send_lock:
+            while self._write_bio.pending:
+                await self._transport.send_all(self._write_bio.read())
 
     @property
     @_utils.inherit_doc(AsyncStreamTransport)
